@@ -144,7 +144,7 @@ def run(ctx) -> None:
             if em.kind != "LOOP":
                 ctx.viol(RE, f"extra emission {em.brief()[:60]}", "an event is emitted outside the eight diff-list loops on the normal path", pf.loc)
                 continue
-            m = re.fullmatch(r"(?:DirectorySnapshotDiff\(.*\)|events|diff|\w+)\.(\w+)", em.iter)
+            m = re.fullmatch(r"(?:DirectorySnapshotDiff\(.*\)|[\w']+)\.(\w+)", em.iter)
             lst = m.group(1) if m else em.iter
             order.append(lst)
             want = TABLE.get(lst)
